@@ -654,11 +654,67 @@ def r9_read_metadata_forwards_the_query(repo=None):
     return r
 
 
+def r10_queries_do_not_consult_construction_time_content(repo=None):
+    """'both a newly created reader and a reader created earlier report it': R3 shows that a reader stores nothing after its
+    constructor; this rule shows that what the constructor learned about the channel's *content* does not steer a query either.
+    Content attributes are those the constructor can leave at None for a channel without samples (the field list): they describe
+    the moment of construction.  In the methods that answer queries (everything but the constructor, its private helpers, the
+    plain accessors and __str__) no condition may read one - an early exit on `self._fields is None` answers "nothing" for ever
+    on a reader that was created before the first write."""
+    r = Rule("C20.R10", "no query of the metadata reader branches on what the constructor saw of the channel's content")
+    m = pyfront.mod("digital_metadata", repo)
+    cls = "DigitalMetadataReader"
+    methods = m.methods(cls)
+    init = methods.get("__init__")
+    if init is None:
+        raise AnalysisError("%s.__init__ not found" % cls)
+    # constructor-only helpers count as part of the constructor
+    ctor = [init] + [f for n, f in methods.items() if n.startswith("_") and not n.startswith("__") and any(
+        isinstance(c, ast.Call) and pyfront.call_name(c) == "self." + n for c in ast.walk(init))]
+    none_set, other_set = set(), set()
+    for f in ctor:
+        for a in ast.walk(f):
+            if isinstance(a, ast.Assign):
+                for t in a.targets:
+                    if isinstance(t, ast.Attribute) and isinstance(t.value, ast.Name) and t.value.id == "self":
+                        (none_set if isinstance(a.value, ast.Constant) and a.value.value is None else other_set).add(t.attr)
+    content = sorted(none_set & other_set)
+    if not content:
+        raise AnalysisError("%s: no attribute that the constructor leaves at None for an empty channel was found (`_fields` confirmed on the reference tree)" % cls)
+    n = 0
+    for name, f in methods.items():
+        if any(f is c for c in ctor) or name in ("__str__", "__repr__"):
+            continue
+        n += 1
+        hits = []
+        for x in ast.walk(f):
+            if isinstance(x, (ast.If, ast.While, ast.IfExp, ast.Assert)):
+                for y in ast.walk(x.test):
+                    if isinstance(y, ast.Attribute) and isinstance(y.value, ast.Name) and y.value.id == "self" and y.attr in content:
+                        hits.append((x, y.attr))
+            elif isinstance(x, ast.comprehension):
+                for t in x.ifs:
+                    for y in ast.walk(t):
+                        if isinstance(y, ast.Attribute) and isinstance(y.value, ast.Name) and y.value.id == "self" and y.attr in content:
+                            hits.append((x, y.attr))
+        if hits:
+            x, attr = hits[0]
+            r.violation(m.rel, "%s.%s" % (cls, name), "`%s` decides in a query" % norm(ast.unparse(getattr(x, "test", x)))[:60], "the answer depends on "
+                        "self.%s, which the constructor read once: a reader created before the first write keeps answering as if the "
+                        "channel were empty, while a new reader reports the samples" % attr, line=getattr(x, "lineno", f.lineno))
+        else:
+            r.ok("%s:%s %s.%s" % (m.rel, f.lineno, cls, name), "no condition reads %s" % ", ".join("self." + c for c in content))
+    if n < 10:
+        raise AnalysisError("%s: only %d query methods found" % (cls, n))
+    r.guard(10)
+    return r
+
+
 def rules(repo=None):
     from . import c12
     return [lambda: r8_package_never_opts_into_the_deleting_reader(repo), lambda: r1_read_roles(repo), lambda: r2_write_closed_on_return(repo), lambda: r3_stateless_reader(repo),
             lambda: r4_latest_is_ffill(repo), lambda: c12.r2_range_filter(repo, rid="C20.R5"),
-            lambda: c12.r3_numeric_key_order(repo, rid="C20.R6"), lambda: r7_cache_keys_complete(repo), lambda: r9_read_metadata_forwards_the_query(repo)]
+            lambda: c12.r3_numeric_key_order(repo, rid="C20.R6"), lambda: r7_cache_keys_complete(repo), lambda: r9_read_metadata_forwards_the_query(repo), lambda: r10_queries_do_not_consult_construction_time_content(repo)]
 
 
 EXPLANATION = (
@@ -676,7 +732,8 @@ EXPLANATION = (
     'of DigitalMetadataReader inside the package leaves accept_empty at its default True or passes True (the deleting '
     'option of the recorded finding F10a is never taken by a read path of the package). Does NOT decide HDF5 visibility. '
     'R9: DigitalRFReader.read_metadata obtains the reader with its channel parameter and hands its own start, end and '
-    "method to that reader's read().")
+    "method to that reader's read(). R10: no query method of DigitalMetadataReader has a condition that reads an "
+    'attribute the constructor can leave at None for an empty channel (the field list).')
 TECHNIQUE = ('Python ast; package call graph with provenance partition of paths; context-manager/generator exhaustion; store-on-self table')
 ASSUMPTIONS = ["zip() pulls from its first iterable first", "h5py's default file mode is 'r'",
                "the mutator table (vp.pycalls.MUTATORS) is complete for the standard library calls this package uses"]
